@@ -136,10 +136,29 @@ func (fs *Store) AddMessage(m storage.Message) (id string, err error) {
 	fm.Fsize = size
 	fm.Fsubject = m.Subject()
 	mb.messages = append(mb.messages, fm)
+
+	// Drop the oldest messages over messageCap in the same index update, so that the mailbox
+	// never loses a message without having gained the new one.
+	var evicted []*Message
+	if fs.messageCap > 0 {
+		for len(mb.messages) > fs.messageCap {
+			log.Info().Str("module", "storage").Str("mailbox", mb.name).
+				Msg("Mailbox over message cap")
+			evicted = append(evicted, mb.messages[0])
+			mb.messages = mb.messages[1:]
+		}
+	}
 	if err := mb.writeIndex(); err != nil {
 		// Try to remove the file.
 		_ = os.Remove(fm.rawPath())
 		return "", err
+	}
+	for _, old := range evicted {
+		fs.extHost.Events.AfterMessageDeleted.Emit(message.MakeMetadata(old))
+		if err := os.Remove(old.rawPath()); err != nil {
+			log.Error().Str("module", "storage").Str("mailbox", mb.name).Str("id", old.ID()).
+				Err(err).Msg("Unable to delete message")
+		}
 	}
 
 	return fm.Fid, nil
